@@ -136,7 +136,8 @@ var unsupportedTypes = []string{"chan:int", "func", "complex64", "complex128", "
 // costs a child process)
 var menagerieCommon = []string{"FV", "FP", "FS", "ZV", "ZP", "ZInt", "ZStr", "TimeLike", "NBool", "NStr", "NInt", "NU8", "NF32",
 	"NInts", "NBytes", "NStrs", "NAnys", "NArr", "NMap", "NMapAny", "NPtr", "Unexp", "Inner", "EmbInline", "EmbPlain", "EmbPtr",
-	"EmbPtrPlain", "EmbUnexp", "EmbZ", "EmbF", "UF", "UO", "UD", "Ifc", "Mixed", "NI"}
+	"EmbPtrPlain", "EmbUnexp", "EmbZ", "EmbF", "UF", "UO", "UD", "Ifc", "Mixed", "NI",
+	"ZInts", "ZMapP", "ZArr", "N", "Tree", "MA", "MB", "NIn", "NII", "NO", "L", "MM"}
 
 var fieldTags = []string{"", "", "", "", "", "nm", "x", ",omitempty", ",omitempty", "nm,omitempty", ",omit", "-", ",inline", ",squash",
 	"nm,inline", ",inline,omitempty", " nm , omitempty ", ",foo", "-,omitempty", ",omitempty,omitempty", "dup", "dup", "ö", ",omit,inline"}
@@ -245,7 +246,7 @@ func genFoldMenagerie(r *Rand, tier string, emit func(string)) {
 			n := tierN(tier, 3, 12)
 			for i := 0; i < n; i++ {
 				d := 4
-				if m.Name == "N" {
+				if cyclicMenagerie[m.Name] {
 					d = 6
 				}
 				var v string
@@ -312,6 +313,13 @@ var foldKinds = []kindCase{
 	{"@ZInt", []string{"0", "1"}},
 	{"@ZStr", []string{"s:", "s:7a65726f", "s:61"}},
 	{"@TimeLike", []string{"(0,0)", "(1,2)"}},
+	{"@ZInts", []string{"nil", "[]", "[0,1]", "[1,0]"}},
+	{"@ZMapP", []string{"nil", "{}", "{s:6b=1}", "{s:6b=1,s:6c=2}"}},
+	{"*@ZMapP", []string{"nil", "&nil", "&{s:6b=1}", "&{s:6b=1,s:6c=2}"}},
+	{"@ZArr", []string{"[0,0]", "[0,1]"}},
+	{"@Tree", []string{"(1,nil,nil)", "(1,[(2,nil,nil)],{s:6b=&(3,nil,nil)})"}},
+	{"@NIn", []string{"(1,nil)", "(1,&(2,nil))"}},
+	{"@NO", []string{"(1,nil)", "(1,&(2,nil))"}},
 	{"@EmbZ", []string{"((0),1)", "((1),1)"}},
 	{"@FV", []string{"(0,s:)", "(1,s:78)"}},
 	{"*@FV", []string{"nil", "&(1,s:78)"}},
@@ -712,6 +720,168 @@ func genFoldRandom(r *Rand, tier string, emit func(string)) {
 	}
 }
 
+var cyclicMenagerie = map[string]bool{"N": true, "Tree": true, "MA": true, "MB": true, "NIn": true, "NII": true, "NO": true,
+	"NBad": true, "L": true, "MM": true, "NI": true}
+
+// regression cases for the repaired defects: recursive types with finite values several
+// levels deep, inline interface fields nested 2-4 deep, nil pointers to Folders in every
+// position, IsZero on either receiver and on every kind, user fold functions inline
+func foldRegressionCases(r *Rand, tier string, emit func(t, v string)) {
+	g := &foldGen{r: r}
+	// a value in every position a field / element / dynamic value can take
+	positions := func(t string, vals []string, nilable bool) {
+		for _, v := range vals {
+			emit(t, v)
+			emit("*"+t, "&"+v)
+			emit("**"+t, "&&"+v)
+			emit("struct{A:int;F:"+t+";Z:int}", "(1,"+v+",2)")
+			emit("struct{A:int;F:"+t+"`,omitempty`;Z:int}", "(1,"+v+",2)")
+			emit("struct{A:int;F:*"+t+"`,omitempty`;Z:int}", "(1,&"+v+",2)")
+			emit("struct{A:int;F:**"+t+"`,omitempty`;Z:int}", "(1,&&"+v+",2)")
+			emit("struct{A:int;F:"+t+"`,inline`;Z:int}", "(1,"+v+",2)")
+			emit("struct{A:int;F:*"+t+"`,inline`;Z:int}", "(1,&"+v+",2)")
+			emit("struct{A:int;S:struct{F:"+t+"`nm,omitempty`}`,inline`;Z:int}", "(1,("+v+"),2)")
+			emit("[]"+t, "["+v+","+v+"]")
+			emit("[1]"+t, "["+v+"]")
+			emit("map[string]"+t, "{s:6b="+v+"}")
+			emit("[]struct{F:"+t+"`,omitempty`}", "[("+v+"),("+v+")]")
+			emit("map[string]struct{F:"+t+"`,omitempty`}", "{s:6b=("+v+")}")
+			emit("struct{F:map[string]"+t+"`,inline`}", "({s:6b="+v+"})")
+			emit("any", "<"+t+">"+v)
+			emit("[]any", "[<"+t+">"+v+",<*"+t+">&"+v+"]")
+			emit("map[string]any", "{s:6b=<"+t+">"+v+"}")
+			emit("struct{A:int;F:any;Z:int}", "(1,<"+t+">"+v+",2)")
+			emit("struct{A:int;F:any`,omitempty`;Z:int}", "(1,<"+t+">"+v+",2)")
+			emit("struct{A:int;F:any`,omitempty`;Z:int}", "(1,<*"+t+">&"+v+",2)")
+			emit("struct{A:int;F:any`,inline`;Z:int}", "(1,<"+t+">"+v+",2)")
+			emit("struct{A:int;F:any`,inline`;Z:int}", "(1,<*"+t+">&"+v+",2)")
+			emit("struct{A:int;F:*any`,omitempty`;Z:int}", "(1,&<"+t+">"+v+",2)")
+			emit("@NI", "(1,<"+t+">"+v+")")
+			emit("@NII", "(1,<"+t+">"+v+")")
+		}
+		if nilable { // t is a pointer type: nil in every position
+			emit(t, "nil")
+			emit("*"+t, "&nil")
+			emit("struct{A:int;F:"+t+";Z:int}", "(1,nil,2)")
+			emit("struct{A:int;F:"+t+"`,omitempty`;Z:int}", "(1,nil,2)")
+			emit("struct{A:int;F:*"+t+"`,omitempty`;Z:int}", "(1,&nil,2)")
+			emit("struct{A:int;F:"+t+"`,inline`;Z:int}", "(1,nil,2)")
+			emit("struct{A:int;F:*"+t+"`,inline`;Z:int}", "(1,&nil,2)")
+			emit("[]"+t, "[nil,nil]")
+			emit("[2]"+t, "[nil,nil]")
+			emit("map[string]"+t, "{s:6b=nil}")
+			emit("struct{F:map[string]"+t+"`,inline`}", "({s:6b=nil})")
+			emit("any", "<"+t+">nil")
+			emit("[]any", "[<"+t+">nil,<*"+t+">&nil,<"+t+">nil]")
+			emit("map[string]any", "{s:6b=<"+t+">nil}")
+			emit("struct{A:int;F:any;Z:int}", "(1,<"+t+">nil,2)")
+			emit("struct{A:int;F:any`,omitempty`;Z:int}", "(1,<"+t+">nil,2)")
+			emit("struct{A:int;F:any`,inline`;Z:int}", "(1,<"+t+">nil,2)")
+			emit("struct{A:int;F:*any`,inline`;Z:int}", "(1,&<"+t+">nil,2)")
+			emit("@NI", "(1,<"+t+">nil)")
+			emit("@NII", "(1,<"+t+">nil)")
+			emit("@Tree", "(1,nil,{s:6b=nil})")
+		}
+	}
+	// nil pointers to Folders (value and pointer receiver) and to user-folded types
+	for _, kc := range []kindCase{
+		{"@FV", []string{"(1,s:78)"}}, {"@FS", []string{"3"}}, {"@FOpen", []string{"(1)"}}, {"@EmbF", []string{"((1,s:78),2)"}},
+		{"@FP", []string{"(1)"}}, {"@UF", []string{"(1)"}}, {"@UO", []string{"(1,s:65)"}}, {"@UD", []string{"5"}},
+	} {
+		positions(kc.typ, kc.vals, false)
+		positions("*"+kc.typ, nil, true)
+	}
+	// IsZero: zero and non-zero, both receivers, every kind
+	for _, kc := range []kindCase{
+		{"@ZP", []string{"(0)", "(1)"}}, {"@ZV", []string{"(0)", "(1)"}}, {"@ZInt", []string{"0", "1"}},
+		{"@ZStr", []string{"s:", "s:7a65726f", "s:61"}}, {"@EmbZ", []string{"((0),1)", "((1),1)"}}, {"@TimeLike", []string{"(0,0)", "(1,2)"}},
+		{"@ZInts", []string{"nil", "[]", "[0,1]", "[1,0]"}}, {"@ZMapP", []string{"nil", "{}", "{s:6b=1}", "{s:6b=1,s:6c=2}"}},
+		{"@ZArr", []string{"[0,0]", "[0,1]"}},
+	} {
+		positions(kc.typ, kc.vals, false)
+		positions("*"+kc.typ, nil, true)
+	}
+	// recursive types, finite values several levels deep
+	for _, tv := range [][2]string{
+		{"@N", "(1,nil)"}, {"@N", "(1,&(2,&(3,&(4,&(5,nil)))))"},
+		{"@Tree", "(1,nil,nil)"}, {"@Tree", "(1,[(2,[(3,[(4,nil,nil)],{s:61=&(5,[],{}),s:62=nil})],nil),(6,nil,{s:63=&(7,[(8,nil,nil)],nil)})],{s:64=&(9,nil,nil)})"},
+		{"@MA", "(1,nil)"}, {"@MA", "(1,&(s:62,&(2,&(s:63,nil,[(3,nil),(4,&(s:64,nil,nil))])),[(5,nil)]))"}, {"@MB", "(s:,nil,nil)"},
+		{"@NIn", "(1,nil)"}, {"@NIn", "(1,&(2,&(3,&(4,nil))))"},
+		{"@NO", "(1,nil)"}, {"@NO", "(1,&(2,&(3,nil)))"},
+		{"@NBad", "(1,nil,nil)"}, {"@NBad", "(1,&(2,nil,nil),nil)"},
+		{"@L", "nil"}, {"@L", "[[],[[],[[]]],nil]"}, {"@MM", "nil"}, {"@MM", "{s:61={s:62={s:63={}}},s:64=nil}"},
+		{"@NI", "(1,<@NI>(2,<*@NI>&(3,<@N>(4,&(5,nil)))))"},
+	} {
+		positions(tv[0], []string{tv[1]}, false)
+		positions("*"+tv[0], nil, true)
+	}
+	for _, name := range []string{"N", "Tree", "MA", "MB", "NIn", "NII", "NO", "L", "MM", "NI"} {
+		t := "@" + name
+		rt := ParseType(t)
+		for i := 0; i < tierN(tier, 6, 40); i++ {
+			d := 3 + r.Intn(4)
+			emit(t, g.Value(rt, d))
+			emit("[]"+t, g.Value(ParseType("[]"+t), d))
+			emit("map[string]*"+t, g.Value(ParseType("map[string]*"+t), d))
+			emit("struct{A:[2]"+t+";B:any}", "("+g.Value(ParseType("[2]"+t), d)+",<*"+t+">"+g.Value(ParseType("*"+t), d)+")")
+		}
+	}
+	// inline interface fields nested 1..4 deep
+	inner := []string{"<map[string]int>{s:6b=1}", "<map[string]int>{}", "<map[string]any>{s:6b=<int>1,s:6c=nil}", "<struct{X:int}>(7)", "<*struct{X:int}>&(7)",
+		"<@FV>(1,s:78)", "<*@FV>&(1,s:78)", "<@FP>(1)", "<@UO>(1,s:65)", "<@Inner>(1,s:79)", "<struct{}>()", "nil",
+		"<int>1", "<[]int>[1]", "<*@FV>nil", "<@FS>3", "<map[int]int>{}", "<@N>(1,&(2,nil))"}
+	wrap := []func(string) string{
+		func(v string) string { return "<struct{B:any`,inline`}>(" + v + ")" },
+		func(v string) string { return "<struct{X:int;B:any`,inline`;Y:int}>(1," + v + ",2)" },
+		func(v string) string { return "<*struct{B:*any`,inline`}>&(&" + v + ")" },
+		func(v string) string { return "<@NII>(5," + v + ")" },
+		func(v string) string { return "<struct{B:any`,inline`;C:any`,inline`}>(" + v + "," + v + ")" },
+		func(v string) string { return "<map[string]any>{s:6d=<struct{B:any`,inline`}>(" + v + ")}" },
+		func(v string) string { return "<struct{S:struct{B:any`,inline`}`,inline`}>((" + v + "))" },
+	}
+	for _, in := range inner {
+		emit("struct{A:any`,inline`}", "("+in+")")
+		for _, w1 := range wrap {
+			emit("struct{A:any`,inline`}", "("+w1(in)+")")
+			emit("struct{P:int;A:any`,inline`;Q:int}", "(1,"+w1(in)+",2)")
+			for _, w2 := range wrap {
+				emit("struct{A:any`,inline`}", "("+w2(w1(in))+")")
+			}
+		}
+		for i := 0; i < tierN(tier, 4, 30); i++ {
+			v := in
+			for d := 0; d < 3+r.Intn(2); d++ {
+				v = Pick(r, wrap)(v)
+			}
+			emit("struct{A:any`,inline`;Z:int}", "("+v+",9)")
+		}
+	}
+}
+
+func genFoldRegressions(r *Rand, tier string, emit func(string)) {
+	foldRegressionCases(r, tier, func(t, v string) {
+		emit("goval " + t + " " + v)
+		emit(foldLine(t, v, -1))
+		if strings.Contains(t, "@U") || strings.Contains(v, "@U") {
+			emit(foldLine(t, v, -1) + " nf")
+		}
+	})
+	// one iterator, several values: failed compilations of recursive types leave nothing behind
+	for _, f := range [][]string{
+		{"@NBad", "(1,nil,nil)", "*@NBad", "nil", "[]*@NBad", "[nil]", "struct{A:*@NBad}", "(nil)", "@N", "(1,nil)"},
+		{"*@NBad", "nil", "@NBad", "(1,nil,nil)", "map[string]*@NBad", "{}", "@Tree", "(1,nil,nil)"},
+		{"struct{A:@N;C:chan:int}", "((1,nil),nil)", "@N", "(1,&(2,nil))", "*@N", "nil", "struct{A:@N;C:chan:int}", "((1,nil),nil)"},
+		{"struct{A:@NIn;C:func}", "((1,nil),nil)", "@NIn", "(1,&(2,nil))", "struct{F:@NIn`,inline`}", "((1,nil))"},
+		{"@N", "(1,&(2,nil))", "@MA", "(1,&(s:62,&(2,nil),nil))", "@MB", "(s:,&(1,nil),[(2,nil)])", "@Tree", "(1,[(2,nil,nil)],nil)", "@N", "(3,nil)"},
+		{"struct{A:any`,inline`}", "(<struct{B:any`,inline`}>(<map[string]int>{s:6b=1}))", "struct{A:any`,inline`}", "(<int>1)", "struct{A:any`,inline`}", "(<struct{B:any`,inline`}>(<map[string]int>{s:6c=2}))"},
+		{"struct{F:*@FV}", "(nil)", "*@FV", "nil", "[]any", "[<*@FV>nil,<@FV>(1,s:)]"},
+		{"struct{F:@ZP`,omitempty`}", "((1))", "struct{F:@ZP`,omitempty`}", "((0))", "struct{F:*@ZP`,omitempty`}", "(&(1))", "struct{F:@ZMapP`,omitempty`}", "({s:6b=1})"},
+		{"struct{F:@UO`,inline`}", "((1,s:65))", "@UO", "(2,s:)", "struct{F:*@UO`,inline`;G:@UF`,inline`}", "(nil,(1))", "struct{F:*@UO`,inline`}", "(&(3,s:))"},
+	} {
+		emit("fold-seq " + strings.Join(f, " "))
+	}
+}
+
 // one iterator for several values
 func genFoldSeq(r *Rand, tier string, emit func(string)) {
 	g := &foldGen{r: r}
@@ -783,6 +953,13 @@ func genFoldFaults(r *Rand, tier string, emit func(string)) {
 	for _, s := range foldShapes {
 		all(s[0], s[1])
 	}
+	j := 0
+	foldRegressionCases(r.Fork(), tier, func(t, v string) {
+		j++
+		if j%tierN(tier, 3, 1) == 0 {
+			all(t, v)
+		}
+	})
 	i := 0
 	foldTagCases(func(t, v string) {
 		i++
@@ -808,6 +985,7 @@ func genFoldFaults(r *Rand, tier string, emit func(string)) {
 }
 
 func genFoldNoFaults(r *Rand, tier string, emit func(string)) {
+	genFoldRegressions(r.Fork(), tier, emit)
 	genFoldMenagerie(r.Fork(), tier, emit)
 	genFoldTags(r.Fork(), tier, emit)
 	genFoldScalars(r.Fork(), tier, emit)
